@@ -302,11 +302,12 @@ def predX (multi : Bool) (req obs : List String) : Option Bool :=
   | _ => none
 
 /-- compact rendering of the started commands for huge command lines:
-    `<argc>:<total bytes of all arguments>:<first 12 bytes of argv[1]>:<first 12 bytes of the last argument>` -/
+    `<argc>:<total bytes of all arguments>:<first 12 bytes of argv[1]>:<first 12 bytes of the last argument>:<working directory>` -/
 def showExecCompact (e : ExecEvent) : String :=
   let total := (e.argv.map List.length).foldl (· + ·) 0
   let pre : Bytes → String := fun a => hexOfBytes (a.take 12)
-  s!"{e.argv.length}:{total}:{pre (e.argv.getD 1 (e.argv.getD 0 []))}:{pre (e.argv.getLast?.getD [])}"
+  let cwd := match e.cwd with | none => "2e" | some d => hexOfBytes (normDir d)
+  s!"{e.argv.length}:{total}:{pre (e.argv.getD 1 (e.argv.getD 0 []))}:{pre (e.argv.getLast?.getD [])}:{cwd}"
 
 def handleXC (verb : String) (args : List String) : Option String :=
   match verb, args with
@@ -321,8 +322,9 @@ def handleXC (verb : String) (args : List String) : Option String :=
     | none => pure "st=1 inv=."
   | _, _ => none
 
-/-- compact form: all reached paths were delivered (counted), every command line was accepted by
-    the operating system (the recorder ran), status 0 -/
+/-- compact form: all reached paths were delivered (counted), each to a command running in the
+    directory the property prescribes, every command line was accepted by the operating system (the
+    recorder ran), status 0 -/
 def predXC (req obs : List String) : Option Bool :=
   match req, obs with
   | ["findxc", f, roots, as, script, _], [st, inv] => do
@@ -331,10 +333,14 @@ def predXC (req obs : List String) : Option Bool :=
     let st ← (st.dropPrefix? "st=").bind (·.toString.toNat?)
     let inv ← (inv.dropPrefix? "inv=").map (·.toString)
     let argcs ← (if inv == "." then some [] else (inv.splitOn ";").mapM fun e => (e.splitOn ":").head?.bind String.toNat?)
+    let cwds ← (if inv == "." then some [] else (inv.splitOn ";").mapM fun e => ((e.splitOn ":")[4]?).bind bytesOfHex)
     match FuModel.Find.RunRef.refRunX r.follow r.roots r.args script, FuModel.Pred.C08.firstMulti r.args with
     | some (ref, reached), some (_, _, _, fixed) =>
       let delivered := (argcs.map fun n => n - 1 - fixed.length).foldl (· + ·) 0
-      pure (delivered == reached.length && ((st == 0) == (ref.ret == 0 && script.all (· == 0))))
+      -- the working directory of the command each path was handed to
+      let obsCwds := (argcs.zip cwds).flatMap fun (n, c) => List.replicate (n - 1 - fixed.length) c
+      let expCwds := reached.flatMap fun e => e.argv.map fun _ => (match e.cwd with | none => [46] | some d => normDir d)
+      pure (delivered == reached.length && obsCwds == expCwds && ((st == 0) == (ref.ret == 0 && script.all (· == 0))))
     | _, _ => pure false
   | _, _ => none
 
